@@ -25,6 +25,11 @@ def run(ctx):
                        'enabled events of the real engine with injection profiles [operator, operator, dup, stop] (both scheduler types); '
                        'distinct = distinct (program, event list); non-trivial = at least 6 events')
     et.trace_suite(ctx, ['C03'], ['operator', 'operator', 'dup', 'stop'], 220, 3000, suite='engine_trace_C03')
+    # sub-workflows, with-items, policies, data flow (real engine, oracle only): a finished workflow execution - root or
+    # sub-workflow - keeps its state and output whatever is delivered afterwards (keep-result: false on the calling task,
+    # late results, the parent's own completion, pauses and cache evictions in between)
+    from harness import engine_explore as ee
+    ee.explore(ctx, ['C03'], ['subwf', 'compose', 'subwf', 'defaults'], ctx.n(24, 240), 3, suite='engine_explore_C03')
 
 
 def search(ctx):
